@@ -108,7 +108,7 @@ func init() {
 		Cfg:        dsim.Config{MaxChaosSteps: 140, MaxStableSteps: 30000, Horizon: 20 * time.Second},
 		Real:       []string{"link/solicit/controller.Controller (link tracking, control stream exchange, hash computation, match evaluation, solicited stream opening and routing, resolveMatch)", "link/solicit hash functions and SolicitProtocol directive", "transport/controller.Controller, controllerbus, peer controller"},
 		Stub:       []string{"simlink pair between the two nodes; byte delivery chunked by the driver"},
-		FaultKinds: []string{"fault:colliding-concatenation", "fault:stranger-peer-constraint", "fault:other-transport-constraint", "fault:chunking", "fault:clock-jump"},
+		FaultKinds: []string{"fault:colliding-concatenation", "fault:long-inputs-differing-in-tail", "fault:stranger-peer-constraint", "fault:other-transport-constraint", "fault:chunking", "fault:clock-jump"},
 	})
 }
 
@@ -130,7 +130,7 @@ func (w *solicitWorld) pairCheck(st *node.SimStream) {
 					kind = "split-ambiguity"
 				}
 				w.fail(&dsim.Violation{Property: "C30", Rule: "mismatched-solicitations-matched", Witness: kind,
-					Detail: fmt.Sprintf("one stream joins solicitation (%q,%q) on node %d with solicitation (%q,%q) on node %d", a.proto, a.ctx, a.side+1, b.proto, b.ctx, b.side+1)})
+					Detail: fmt.Sprintf("one stream joins solicitation (%q,%q) on node %d with solicitation (%q,%q) on node %d", clipTail(a.proto), clipTail(a.ctx), a.side+1, clipTail(b.proto), clipTail(b.ctx), b.side+1)})
 				return
 			}
 			if !a.admits() || !b.admits() {
@@ -172,8 +172,16 @@ func (w *solicitWorld) addDir(side int) {
 	s := w.s
 	t := s.Tape
 	d := &solDir{w: w, side: side, id: len(w.dirs)}
-	// bias toward the colliding family
-	if t.Bool(2, 3, "colliding") {
+	// bias toward the colliding family; sometimes long inputs that differ only in the tail
+	if t.Bool(1, 5, "long-inputs") {
+		long := strings.Repeat("z", 300)
+		if t.Bool(1, 2, "long-proto") {
+			d.proto, d.ctx = "lp/"+long+[]string{"1", "2"}[t.Draw(2, "tail")], "c"
+		} else {
+			d.proto, d.ctx = "lp", long+[]string{"1", "2"}[t.Draw(2, "tail")]
+		}
+		s.Count("fault:long-inputs-differing-in-tail")
+	} else if t.Bool(2, 3, "colliding") {
 		k := t.Draw(3, "family")
 		d.proto, d.ctx = []string{"ab", "a", "abc"}[k], []string{"c", "bc", ""}[k]
 	} else {
@@ -206,7 +214,7 @@ func (w *solicitWorld) addDir(side int) {
 		s.Count("fault:other-transport-constraint")
 	}
 	w.dirs = append(w.dirs, d)
-	s.Logf("solicit side%d dir#%d (%q,%q) peer=%s tpt=%s", side, d.id, d.proto, d.ctx, d.peer, d.tpt)
+	s.Logf("solicit side%d dir#%d (%q,%q) peer=%s tpt=%s", side, d.id, clip(d.proto), clip(d.ctx), d.peer, d.tpt)
 	_, _, err := w.nodes[side].Bus.AddDirective(link_solicit.NewSolicitProtocol(protocol.ID(d.proto), []byte(d.ctx), pid, tid), d)
 	if err != nil {
 		panic(err)
@@ -307,4 +315,12 @@ func (w *solicitWorld) Teardown(s *dsim.Sim) {
 	for _, nd := range w.net.Nodes {
 		nd.Shutdown()
 	}
+}
+
+// clipTail shortens long strings keeping the tail (where the long inputs differ).
+func clipTail(x string) string {
+	if len(x) > 24 {
+		return fmt.Sprintf("…(%d bytes)…%s", len(x), x[len(x)-6:])
+	}
+	return x
 }
